@@ -34,6 +34,7 @@ let run line =
      | Some t0 ->
        let t = ref t0 in
        let dead = ref false in
+       let unknown = ref false in
        let armed = ref false in  (* an allocation fault is scheduled for the next parse: its outcome is not modelled *)   (* after an error status the API requires a reset: further parses are skipped *)
        let out = ref [] in
        (try
@@ -41,6 +42,11 @@ let run line =
            let body = String.sub op 1 (String.length op - 1) in
            match op.[0] with
            | ('P' | 'Z') when !dead -> out := "skipped" :: !out
+           | ('P' | 'Z') when !unknown || String.length body > 60000 ->
+             (* a chunk of more than 30000 bytes: the list-based model is quadratic in the token length, so such a
+                call is not modelled (any outcome matches) and neither are the calls after it, until a reset puts
+                the parser into a state that does not depend on it (TokDead2.reset_is_new) *)
+             unknown := true; out := "? ? ?" :: !out
            | ('P' | 'Z') when !armed -> armed := false; dead := true; out := "? ? ?" :: !out
            | 'M' -> armed := true; out := "armed" :: !out
            | 'P' | 'Z' ->
@@ -154,8 +160,8 @@ let run line =
                      out := Printf.sprintf "%s %s %s" (err_name t'.err) (string_of_z t'.char_offset) v :: !out)
                 end
               | _ -> failwith "B op")
-           | 'R' -> t := tok_reset !t; dead := false; out := "reset" :: !out
-           | 'N' -> t := t0; dead := false; out := "new" :: !out
+           | 'R' -> t := tok_reset !t; dead := false; unknown := false; out := "reset" :: !out
+           | 'N' -> t := t0; dead := false; unknown := false; out := "new" :: !out
            | 'L' -> out := "locale" :: !out   (* the caller's locale: not an input of the model (locale independence is C14) *)
            | 'F' -> let (s, a, v) = flags_of (int_of_string body) in t := set_flags !t s a v; out := "flags" :: !out
            | _ -> failwith "tok op") (split_on ';' ops)
